@@ -559,6 +559,39 @@ func runC10(c *Ctx) {
 			}
 		}
 	}
+	// emptyTest: a call that asks whether a list is empty — List.IsEmpty itself, or a one-line method of Queue that
+	// hands the question to its list (func (q *Queue) IsEmpty() bool { return q.list.IsEmpty() }); answers the sym of
+	// the list asked about
+	emptyTest := func(call *ssa.Call) (string, bool) {
+		cal := staticCallee(&call.Call)
+		if cal == nil || len(call.Call.Args) != 1 {
+			return "", false
+		}
+		if cal == lIsEmpty {
+			return sym(call.Call.Args[0]), true
+		}
+		o := origin(cal)
+		if o == nil || len(o.Blocks) != 1 || o.Signature.Recv() == nil || !isNamedOrigin(o.Signature.Recv().Type(), queueT) {
+			return "", false
+		}
+		ret, ok := o.Blocks[0].Instrs[len(o.Blocks[0].Instrs)-1].(*ssa.Return)
+		if !ok || len(ret.Results) != 1 {
+			return "", false
+		}
+		inner, ok := ret.Results[0].(*ssa.Call)
+		if !ok || staticCallee(&inner.Call) != lIsEmpty || len(inner.Call.Args) != 1 {
+			return "", false
+		}
+		fa, ok := inner.Call.Args[0].(*ssa.FieldAddr)
+		if !ok || fa.X != ssa.Value(o.Params[0]) {
+			return "", false
+		}
+		if _, f := fieldVarOf(fa); !sameField(f, listF) {
+			return "", false
+		}
+		return "&" + sym(call.Call.Args[0]) + "." + listF.Name(), true
+	}
+	_ = emptyTest
 	// frontCell: a local cursor variable that only ever receives the result of cfirst and is handed only to
 	// cursor methods that do not move the cursor
 	frontCell := func(v ssa.Value) bool {
@@ -645,8 +678,10 @@ func runC10(c *Ctx) {
 				okR, wit := mustPassToExitE(P, call, isBackReset, func(iff *ssa.If, i int) bool {
 					// exempt: the edge on which the list is known non-empty
 					f := expandFact(Fact{iff.Cond, i == 0})[0]
-					if ec, ok := f.Cond.(*ssa.Call); ok && staticCallee(&ec.Call) == lIsEmpty && !f.Truth {
-						return true
+					if ec, ok := f.Cond.(*ssa.Call); ok && !f.Truth {
+						if _, isEmptyQ := emptyTest(ec); isEmptyQ {
+							return true
+						}
 					}
 					// … or a cursor at the front of the list (the result of cfirst) is not at the end
 					if ec, ok := f.Cond.(*ssa.Call); ok && !f.Truth && len(ec.Call.Args) == 1 {
@@ -776,7 +811,7 @@ func runC10(c *Ctx) {
 						return "-1"
 					}
 					// … or it is the first cursor of a list known not to be empty (taken after that test)
-					if cal := staticCallee(&fc.Call); cal != nil && cal == lIsEmpty && !truth {
+					if lsym, isEmptyQ := emptyTest(fc); isEmptyQ && !truth {
 						recv := call.Call.Args[0]
 						if al, ok := recv.(*ssa.Alloc); ok {
 							// the cursor lives in a local cell: the one value stored into it
@@ -790,7 +825,7 @@ func runC10(c *Ctx) {
 								recv = vals[0]
 							}
 						}
-						if first, ok := recv.(*ssa.Call); ok && staticCallee(&first.Call) == lCfirst && sym(first.Call.Args[0]) == sym(fc.Call.Args[0]) && dominatesInstr(fc, first) {
+						if first, ok := recv.(*ssa.Call); ok && staticCallee(&first.Call) == lCfirst && (sym(first.Call.Args[0]) == lsym || ksymEq(first.Call.Args[0], lsym)) && dominatesInstr(fc, first) {
 							return "-1"
 						}
 					}
@@ -1682,4 +1717,11 @@ func ruleWrapChecked(c *Ctx) {
 		return
 	}
 	c.judge(len(bad) == 0, "R-WRAP-CHECKED", "ring.(*Ring).At:returned nodes", at.Pos(), fmt.Sprintf("%d link-derived value(s), each compared with the receiver", n), fmt.Sprintf("At can return %v without the wrap test: on a ring where that link leads back to the receiver (a one-element ring) it answers the receiver itself instead of nil, so Peek reports an element that Len and every other offset deny", bad))
+}
+
+// ksymEq: the symbolic path of v equals want, or equals it up to the leading address-of that sym prints for field
+// addresses.
+func ksymEq(v ssa.Value, want string) bool {
+	s := sym(v)
+	return s == want || "&"+s == want || s == "&"+want
 }
